@@ -8,7 +8,7 @@ THEOREMS = ['C09.decode_encode', 'C09.loads_dumps', 'C09.encode_injective', 'C09
             'C09.strip_pad', 'C09.dumps_examples']
 
 RICH = [0, -1, 2 ** 70, -10 ** 30, 0.1, -2.5e-7, 1e+20, 3.141592653589793, 5e-324, 1.7976931348623157e+308,
-        'plain', '', 'ü', 'quote"back\\slash', 'tab\tnl\n', '\u0001', '日本語', '\U0001F600 astral', None, True, False,
+        'plain', '', 'ü', 'e\u0301 decomposed', '\u2126 ohm \u212b', 'quote"back\\slash', 'tab\tnl\n', '\u0001', '日本語', '\U0001F600 astral', None, True, False,
         [1, [2, [3, []]]], {'a': 1, 'z': {'y': [None, 'x']}, 'b': []}, [], {}, [0.5, 'x', None],
         # strings that spell JSON literals and number tokens (a text-level rewrite of the encoded form must not touch them)
         'NaN', 'SNR was NaN here', 'Infinity', 'gain -Infinity dB', 'null', 'true', 'false', '1e5', '-0', '[1, 2]', '{"a": 1}',
@@ -56,7 +56,7 @@ def gen_ext(r, tier):
         if r.random() < 0.6 else None
     ext = SM.build_parent(case, affine=aff)
     # replace values by rich ones, keeping counts; shuffle key names to non-sorted, unicode keys
-    names = ['zeta', 'Alpha', 'kü', 'b b', 'k"q', '\U0001F600', 'Mid', 'a.b.c', '0num', 'NaN voxel count', 'null', 'Infinity', 'true', 'in    dent']
+    names = ['zeta', 'Alpha', 'kü', 'ke\u0301', 'k\u00e9', 'b b', 'k"q', '\U0001F600', 'Mid', 'a.b.c', '0num', 'NaN voxel count', 'null', 'Infinity', 'true', 'in    dent']
     r.shuffle(names)
     for cls in ext.get_valid_classes():
         d = ext.get_class_dict(cls)
@@ -116,6 +116,12 @@ def main(pid, tier):
                 rr = DcmMetaExtension.from_runtime_repr(copy.deepcopy(ext._content))
                 if rr.to_json() != js or not (rr == back):
                     fails.append('from_runtime_repr and from_json disagree')
+                # the same content as another writer spells it (characters outside ASCII written as they are): loaded as it stands —
+                # no key or string is rewritten (two keys that differ only in Unicode normalisation stay two keys)
+                raw = json.dumps(ext._content, ensure_ascii=False)
+                back_raw = DcmMetaExtension.from_json(raw)
+                if ordered(back_raw._content) != ordered(ext._content):
+                    fails.append('from_json of the same content written with unescaped non-ASCII characters differs from the content')
                 if str(ext) != js:
                     fails.append('str(ext) is not its JSON')
                 # text encodes to what the container stores
